@@ -648,6 +648,11 @@ func init() {
 		_, ptr, _ := newTimerObj(t, fn, false, 0)
 		tm := p.addTimer(args[0].(*Term), args[1].(*FuncVal), nil, nil, ptr.O)
 		p.side[sideKey{ptr.O, 0}] = tm
+		// with pre-emption enabled a timer that is already due fires at once: its
+		// goroutine is runnable before AfterFunc's caller has stored the result
+		if d := args[0].(*Term); p.preemptBound > 0 && d.IsConst() && int64(d.Val) <= 0 {
+			p.fire(tm)
+		}
 		return ptr
 	}, "time.AfterFunc")
 	reg(func(t *Task, fn *ssa.Function, args []Value) Value {
